@@ -16,7 +16,10 @@ RULE = ("outcome scripts over {ok, fail(no response), fail(status), none, raise}
         "virtual-time loop with the request stubbed (request durations 0 / 50 ms / CONNECTIONSTATE_REQUEST_TIMEOUT); both "
         "tiers: all 4^1+..+4^8 = 87 380 scripts over {ok, fail, none, raise} (the two kinds of fail alternate by position) "
         "+ random scripts up to length 12 with all duration modes and owner-callback variants (stop from inside, slow, "
-        "restart); thorough adds scripts of length 9..12 stratified by the lengths of the failure runs; non-trivial = "
+        "restart); the same heartbeat inside a real UDPTunnel and UDPDeviceManagementConnection (real ConnectionState "
+        "exchange over the stub socket, gateway scripted ok / silent / error status / channel gone) for all live scripts "
+        "up to length 4 (5 thorough); thorough adds scripts of length 9..12 stratified by the lengths of the failure "
+        "runs; non-trivial = "
         "distinct script in which at least one request failed")
 TRUSTED = ["model XknxVerif.Model.Heartbeat is hand-written; tied by replaying the recorded traces through its monitor",
            "harness/vloop.py virtual clock; the stubbed send_connectionstate/on_failure callables of this file"]
@@ -102,8 +105,147 @@ async def _run(loop, script, dur, variant):
     return tr
 
 
+# --- the same heartbeat inside its owners: real UDPTunnel / UDPDeviceManagementConnection, real ConnectionState
+#     requests over the stub socket, a gateway scripted per request --------------------------------------------------
+
+def _owner_classes():
+    from harness.tstub import StubUDP
+    from xknx.io.device_management_connection import UDPDeviceManagementConnection
+    from xknx.io.tunnel import UDPTunnel
+
+    class Tun(UDPTunnel):
+        __slots__ = ("hook",)
+
+        def _init_transport(self):
+            self.transport = StubUDP()
+
+        def _tunnel_established(self):
+            super()._tunnel_established()
+            self.hook("S", None)
+
+        async def _connectionstate_request(self):
+            await self.hook("Q", None)
+            r = await super()._connectionstate_request()
+            self.hook("R", r)
+            return r
+
+        async def _heartbeat_failed(self):
+            self.hook("F", None)
+            await super()._heartbeat_failed()
+
+    class Dm(UDPDeviceManagementConnection):
+        __slots__ = ("hook",)
+
+        def _init_transport(self):
+            self.transport = StubUDP()
+
+        async def _connectionstate_request(self):
+            await self.hook("Q", None)
+            r = await super()._connectionstate_request()
+            self.hook("R", r)
+            return r
+
+        async def disconnect(self):   # on_failure of the device management connection
+            self.hook("F", None)
+            await super().disconnect()
+
+    return Tun, Dm
+
+
+async def _run_owner(loop, script, owner):
+    from harness.tstub import GW, Gateway
+    from xknx import XKNX
+    from xknx.knxip import ConnectionStateRequest, ConnectionStateResponse, ErrorCode
+    Tun, Dm = _owner_classes()
+    t0 = loop.time()
+    tr = []
+    pos = [0]
+    exhausted = loop.create_future()
+    cur = [None]
+
+    def now():
+        return vloop.q(loop.time() - t0)
+
+    if owner == "tunnel":
+        o = Tun(XKNX(), cemi_received_callback=lambda raw: None, gateway_ip=GW[0], gateway_port=GW[1],
+                local_ip="192.168.1.1", auto_reconnect=False)
+    else:
+        o = Dm(gateway_ip=GW[0], gateway_port=GW[1], local_ip="192.168.1.1")
+
+    def hook(kind, val):
+        if kind == "S":
+            tr.append(f"S{now()}")
+        elif kind == "F":
+            tr.append(f"F{now()}")
+        elif kind == "R":
+            got = ("none" if val is None else "ok" if val[0] else "f0" if val[1] is None
+                   else f"f{ErrorCode[val[1]].value}")
+            tr.append(f"R{got}@{now()}")
+            if got != cur[0]:
+                tr.append(f"!outcome-{got}-for-gateway-behaviour-{cur[0]}")
+        else:
+            async def q():
+                tr.append(f"Q{now()}")
+                if pos[0] >= len(script):
+                    if not exhausted.done():
+                        exhausted.set_result(None)
+                    await asyncio.Event().wait()
+                cur[0] = script[pos[0]]
+                pos[0] += 1
+                if cur[0] == "none":
+                    o.communication_channel = None   # the connection is already gone when the heartbeat looks
+            return q()
+    o.hook = hook
+
+    def on_data(fr, addr):
+        pass
+    gw = Gateway(o.transport, on_data=on_data)
+    gw.answer_state = False
+    base = gw.handle
+
+    def handle(fr, addr):
+        b = fr.body
+        if isinstance(b, ConnectionStateRequest):
+            if cur[0] == "ok":
+                loop.call_later(0.05, o.transport.inject, ConnectionStateResponse(communication_channel_id=b.communication_channel_id))
+            elif cur[0] not in ("f0", "none"):
+                loop.call_later(0.05, o.transport.inject, ConnectionStateResponse(
+                    communication_channel_id=b.communication_channel_id, status_code=ErrorCode(int(cur[0][1:]))))
+            return
+        base(fr, addr)
+    o.transport.gateway = handle
+    await o.connect()
+    if owner != "tunnel":
+        tr.append(f"S{now()}")
+    task = o._heartbeat._task
+    await asyncio.wait([task, exhausted], return_when=asyncio.FIRST_COMPLETED)
+    if task.done():
+        exc = None if task.cancelled() else task.exception()
+        tr.append(f"E{now()}" if exc is None else f"!{type(exc).__name__}")
+        n = len(tr)
+        await asyncio.sleep(3 * RATE)
+        if len(tr) != n:
+            tr.append("!late-activity")
+    else:
+        await loop.settle()
+        o._heartbeat.stop()
+        tr.append(f"X{now()}")
+        await loop.settle()
+        if not task.done():
+            tr.append("!stop-did-not-stop")
+    if not exhausted.done():
+        exhausted.cancel()
+    o.hook = lambda k, v: (asyncio.sleep(0) if k == "Q" else None)
+    await o.disconnect()
+    return tr
+
+
 def run_impl(case):
     script = case["script"].split(",")
+    if case.get("owner"):
+        tr = vloop.run(_run_owner, script, case["owner"])
+        s = ",".join(tr)
+        return {"out": s, "line": f"hb monitor {s}", "expect": "accept"}
     tr = vloop.run(_run, script, case.get("dur", "zero"), case.get("variant", "plain"))
     s = ",".join(tr)
     return {"out": s, "line": f"hb monitor {s}", "expect": "accept"}
@@ -181,7 +323,7 @@ def nontrivial(case, out):
 
 
 def finding_key(case, msg):
-    return f"{case['script']}|{case.get('dur', 'zero')}|{case.get('variant', 'plain')}"
+    return f"{case['script']}|{case.get('dur', 'zero')}|{case.get('variant', 'plain')}|{case.get('owner', '')}"
 
 
 def outcome_class(out):
@@ -242,6 +384,15 @@ def generate(rng, tier):
             yield {"script": ",".join(_status_variant(seq, n)),
                    "dur": "zero" if pruned else ("zero", "fast", "real")[n % 3],
                    "variant": "plain" if pruned else variants[(n // 3) % 4 if n % 5 == 0 else 0]}
+    # the heartbeat inside its owners (real ConnectionState exchange; `raise` cannot be produced there)
+    osyms = ["ok", "f0", "f33", "none"]
+    for length in range(1, 6 if thorough else 5):
+        for seq in itertools.product(osyms, repeat=length):
+            t = _terminal_at(seq)
+            if t is not None and t < length - 1:
+                continue
+            for owner in ("tunnel", "dmconn"):
+                yield {"script": ",".join(seq), "owner": owner}
     # random full-length scripts (unpruned), all durations and variants
     for j in range(4000 if thorough else 400):
         length = rng.choice([3, 5, 8, 9, 10, 11, 12]) if thorough else rng.choice([2, 4, 6, 8, 12])
